@@ -5,12 +5,15 @@
    every identifier lookup, every block capacity; vcd_stream_transparent_rs: the same for real-valued and
    string-valued variables (reals as the 8 bytes of the parsed double, strings verbatim); (3) the rendering of a
    recorded value is its lower-cased characters (write_render_roundtrip).
-   NOT proved: that the byte machine's events are the whitespace-separated tokens of the text (the events are
-   defined by the machine; prefix_events / cut_at_token_boundary in Properties/C15.v are properties of it) and the
+   (4) the text level (Proofs/TokenProofs.v): parse_body_lines - a body written one token group per line (`#<time>`,
+   `<scalar><id>`, `<vector> <id>`, `$comment words $end`, `$dumpvars`/`$end`/`$dumpoff`/`$dumpon`) is parsed into exactly the
+   events its lines denote; vcd_lines_transparent composes it with (2): from the text to the report.
+   NOT proved: other legal layouts of the same tokens (several token groups on one line, CRLF, indentation, `$dumpall`;
+   the machine handles them and prefix_events / cut_at_token_boundary in Properties/C15.v are properties of it) and the
    multi-threaded path (C03).  Those are decided by the correspondence run and the oracle that is
    computed from the abstract history (MANIFEST level_note). *)
 From WV Require Import Model.Base Model.Bits Model.WaveMem Model.VcdBody Spec.TimeSpec Spec.StoreSpec
-  Proofs.BitsProofs Proofs.StoreProofs Proofs.EncoderProofs Proofs.VcdStreamProofs Proofs.RealStringEnc Proofs.VcdStreamRS.
+  Proofs.BitsProofs Proofs.StoreProofs Proofs.EncoderProofs Proofs.VcdStreamProofs Proofs.RealStringEnc Proofs.VcdStreamRS Proofs.BodyProofs Proofs.TokenProofs.
 Open Scope N_scope.
 
 Check vcd_stream_transparent :
@@ -58,7 +61,30 @@ Check vcd_stream_transparent_rs :
        load_signal lz_decompress blocks id (rs_tpe str) = Ok sig /\
        observe_signal sig = Ok (map (fun a : N * list byte => (fst a, if str then KString else KReal, snd a)) (gdedup R))).
 
+Check parse_body_lines :
+  forall debug ls stop, Forall line_ok ls -> N.of_nat (length (render ls)) <= stop + 1 ->
+  parse_body debug (render ls) stop = (flat_map events_of ls, PDone).
+
+Check vcd_lines_transparent :
+  forall (parse_f64 : list byte -> option (list byte)) (lz_compress : list byte -> list byte)
+         (lz_decompress : list byte -> nat -> option (list byte)),
+  (forall d n, (length d <= n)%nat -> lz_decompress (lz_compress d) n = Some d) ->
+  forall cap, 1 <= cap -> cap <= 65536 ->
+  forall debug tpes lookup (ls : list line) stop e blocks ttb id bits,
+  Forall line_ok ls -> N.of_nat (length (render ls)) <= stop + 1 ->
+  (1 <= bits)%nat -> nth_error tpes id = Some (EncBits bits) ->
+  read_single_stream parse_f64 lz_compress cap debug tpes lookup (render ls) stop true = Ok e ->
+  enc_finish lz_compress e = Ok (blocks, ttb) -> N.of_nat (length ttb) < 4294967296 ->
+  exists ops, ops_of lookup true false (flat_map events_of ls) = Some ops /\
+    (N.of_nat (count_vcd id ops) * (10 + N.of_nat bits) < 4294967264 ->
+     exists R sig,
+       Forall2 (decodes bits) R (recorded id ops [] false) /\
+       load_signal lz_decompress blocks id (EncBits bits) = Ok sig /\
+       observe_signal sig = outcome_map render_of (dedup R)).
+
 Print Assumptions vcd_stream_transparent.
+Print Assumptions parse_body_lines.
+Print Assumptions vcd_lines_transparent.
 Print Assumptions vcd_stream_transparent_rs.
 Print Assumptions write_render_roundtrip.
 Print Assumptions lookup_ok.
